@@ -691,7 +691,7 @@ def plan_labels(c):
                 # source spellings with backslash escapes and character references (real ones and look-alikes)
                 if 'dest_escape' not in c.exclude:
                     dests += ['/a\\*b%d%d' % (i, j), '/a\\\\*b%d%d' % (i, j)]
-                    titles += ['t\\*%d' % j, 't\\\\*%d' % j, 'say \\"hi\\" %d' % j]
+                    titles += ['t\\*%d' % j, 't\\\\*%d' % j, 'say \\"hi\\" %d' % j, 'ends in \\\\', '%d\\\\\\\\' % j]      # (the last two end in escaped backslashes)
                 if 'charref' not in c.exclude:
                     dests += ['/u&amp;v%d%d' % (i, j), '/u&ltx;%d%d' % (i, j), '/u&copyb%d%d' % (i, j), '/q?a=1&amp;amp;b=%d%d' % (i, j)]
                     titles += ['&amp;lt; %d' % j, 'Q&A &copy %d' % j, '&#35;&ouml;&nosuch; %d' % j]
